@@ -13,7 +13,7 @@
 struct alw_ctl alw;
 static const char *NAMES[] = {"malloc", "mmap", "mremap", "munmap", "open", "fstat", "read", "fopen", "fwrite", "fclose", "write", "calloc", "realloc", "fflush", "fdopen", "ftruncate"};
 const char *alw_kind_name(int k) { return k >= 0 && k < ALW_NKINDS ? NAMES[k] : "?"; }
-void alw_reset(void) { int g = alw.guard_files, c = alw.guard_code, f = alw.force_move, fo = alw.fill_on, sr = alw.short_read, tc = alw.tight_code; unsigned char fb = alw.fill; long s = alw.salt; memset(&alw, 0, sizeof alw); alw.guard_files = g; alw.guard_code = c; alw.force_move = f; alw.salt = s; alw.fill_on = fo; alw.fill = fb; alw.short_read = sr; alw.tight_code = tc; }
+void alw_reset(void) { long bu = alw.bad_unmap; int g = alw.guard_files, c = alw.guard_code, f = alw.force_move, fo = alw.fill_on, sr = alw.short_read, tc = alw.tight_code; unsigned char fb = alw.fill; long s = alw.salt; memset(&alw, 0, sizeof alw); alw.guard_files = g; alw.guard_code = c; alw.force_move = f; alw.salt = s; alw.fill_on = fo; alw.fill = fb; alw.short_read = sr; alw.tight_code = tc; alw.bad_unmap = bu; /* reset by the harness only */ }
 /* realistic errno values, rotating with the index of the failed call */
 static int pick(const int *v, int n) { return v[(unsigned long)(alw.counter + alw.fail_at + alw.salt) % (unsigned long)n]; }
 static const int E_MEM[] = {ENOMEM, EAGAIN}, E_OPEN[] = {EMFILE, ENFILE, EACCES, EINTR, ENOENT}, E_IO[] = {EIO, EINTR, ENOSPC, EDQUOT};
@@ -29,12 +29,17 @@ static int hit(int kind) {
 
 void *alw_malloc(size_t n) { if (hit(ALW_MALLOC)) { errno = ENOMEM; return NULL; } void *p = malloc(n); if (p && alw.fill_on) memset(p, alw.fill, n); return p; }
 
+/* sizes of the regions handed out for library-managed code buffers (tight or guarded), to judge later unmap requests */
+static struct { void *p; size_t len; } regs[256]; static int nregs;
+static void reg_add(void *p, size_t len) { for (int i = 0; i < nregs; i++) if (regs[i].p == p) { regs[i].len = len; return; } if (nregs < 256) { regs[nregs].p = p; regs[nregs].len = len; nregs++; } }
+static void reg_check_del(void *p, size_t len) { for (int i = 0; i < nregs; i++) if (regs[i].p == p) { size_t pg = 4096, off = (unsigned long)p & (pg - 1), span = (off + regs[i].len + pg - 1) / pg * pg; if (off + len > span) alw.bad_unmap++; regs[i] = regs[--nregs]; return; } }
 /* a read-write-exec region of len bytes whose last byte is the last byte of a page, followed by an inaccessible page */
 static void *tight_map(size_t len, int prot) {
   size_t pg = 4096, span = (len + pg - 1) / pg * pg;
   unsigned char *res = mmap(NULL, span + pg, PROT_NONE, MAP_PRIVATE | MAP_ANONYMOUS, -1, 0);
   if (res == MAP_FAILED) return MAP_FAILED;
   if (mprotect(res, span, prot) != 0) { munmap(res, span + pg); return MAP_FAILED; }
+  reg_add(res + (span - len), len);
   return res + (span - len);
 }
 static int tight_is(const void *p) { return ((unsigned long)p & 4095) != 0; /* only tight_map hands out unaligned regions */ }
@@ -72,6 +77,7 @@ void *alw_mremap(void *old, size_t oldlen, size_t newlen, int flags, ...) {
     if (!(flags & MREMAP_MAYMOVE)) { errno = ENOMEM; return MAP_FAILED; }
     void *fresh = tight_map(newlen, PROT_READ | PROT_WRITE | PROT_EXEC); if (fresh == MAP_FAILED) return MAP_FAILED;
     memcpy(fresh, old, oldlen < newlen ? oldlen : newlen);
+    reg_check_del(old, oldlen);
     if (tight_is(old)) tight_unmap(old, oldlen); else munmap(old, oldlen);
     return fresh;
   }
@@ -82,7 +88,7 @@ void *alw_mremap(void *old, size_t oldlen, size_t newlen, int flags, ...) {
   }
   return mremap(old, oldlen, newlen, flags);
 }
-int alw_munmap(void *addr, size_t len) { if (hit(ALW_MUNMAP)) { errno = EINVAL; return -1; } if (tight_is(addr)) { tight_unmap(addr, len); return 0; } return munmap(addr, len); }
+int alw_munmap(void *addr, size_t len) { if (hit(ALW_MUNMAP)) { errno = EINVAL; return -1; } reg_check_del(addr, len); if (tight_is(addr)) { tight_unmap(addr, len); return 0; } return munmap(addr, len); }
 int alw_open(const char *path, int flags, ...) {
   mode_t mode = 0; if (flags & O_CREAT) { va_list ap; va_start(ap, flags); mode = va_arg(ap, mode_t); va_end(ap); }
   else { va_list ap; va_start(ap, flags); mode = va_arg(ap, mode_t); va_end(ap); }
